@@ -209,12 +209,18 @@ impl PointG1 {
     #[allow(unused)]
     pub fn from_bytes(b: &[u8]) -> ClResult<Self> {
         if b.len() != Self::BYTES_REPR_SIZE {
-            Err(err_msg!("Invalid byte length for PointG1"))
-        } else {
-            Ok(PointG1 {
-                point: ECP::frombytes(b),
-            })
+            return Err(err_msg!("Invalid byte length for PointG1"));
         }
+        // ECP::frombytes maps everything that is not a point to the identity, accepts the
+        // compressed forms and ignores the padding: accept only the encoding `to_bytes`
+        // writes, and never the identity (as from_string)
+        let res = PointG1 {
+            point: ECP::frombytes(b),
+        };
+        if res.is_inf()? || res.to_bytes()? != b {
+            return Err(err_msg!("Invalid PointG1"));
+        }
+        Ok(res)
     }
 
     #[allow(unused)]
@@ -383,6 +389,18 @@ impl PointG2 {
 
     /// Decode from binary format (big-endian)
     pub fn from_bytes(b: &[u8]) -> ClResult<PointG2> {
+        // ECP2::frombytes maps everything that is not on the curve to the identity and reduces
+        // coordinates silently: accept only the encoding `to_bytes` writes, and never the
+        // identity (as from_string)
+        let res = Self::from_bytes_inf(b)?;
+        if res.is_inf()? || res.to_bytes()? != b {
+            return Err(err_msg!("Invalid PointG2"));
+        }
+        Ok(res)
+    }
+
+    /// Decode from binary format, allowing for the infinity point
+    pub fn from_bytes_inf(b: &[u8]) -> ClResult<PointG2> {
         if b.len() != Self::BYTES_REPR_SIZE {
             Err(err_msg!("Invalid byte length for PointG2"))
         } else {
@@ -459,7 +477,7 @@ impl PointG2Inf {
     }
 
     pub fn from_bytes(val: &[u8]) -> ClResult<Self> {
-        Ok(Self(PointG2::from_bytes(val)?))
+        Ok(Self(PointG2::from_bytes_inf(val)?))
     }
 }
 
